@@ -40,6 +40,12 @@ def stages(tier, rng, only=None):
     out.append(ac.stage("tied_heavy", PID, lambda: ac.cases(
         [ac.tied_heavy_dataset(rng, with_empty=k % 3 == 0) for k in range(n_rand)], BIO,
         SCHEMES + [ac.QUARTER], namings=["ints", "letters"]), _nt))
+    out.append(ac.stage("hard_corpus", PID, lambda: ac.corpus_cases(BIO) + ac.corpus_cases(
+        [c for c in BIO if c != "BioConsert"], reuse="refused_first") + ac.corpus_cases(BIO, reuse="other"), _nt))
+    out.append(ac.stage("refused_first", PID, lambda: ac.refused_first_cases(
+        [ac.random_dataset(rng, 7, 6, nmin=4) for _ in range(n_rand)] + [ac.cyclic_dataset(rng, 4, 6) for _ in range(n_rand // 2)]
+        + [ac.tied_heavy_dataset(rng, False) for _ in range(n_rand // 2)],
+        [c for c in BIO if c != "BioConsert"], [ac.P_UNI1, ac.P_UNI5, ac.P_IND1]), _nt))
     out.append(ac.stage("larger", PID, lambda: ac.cases([ac.larger_dataset(rng, 10, 25) for _ in range(n_rand // 8)], BIO,
                                                         SCHEMES, namings=["ints", "letters"]), _nt))
     out.append(ac.stage("huge_penalties", PID, lambda: ac.huge_cases(
